@@ -8,7 +8,7 @@
    are the complements of those findings (plus: the delimiter itself must not occur in a part, which
    no encoder using that boundary can represent). *)
 From Coq Require Import List Bool NArith.
-From MV Require Import Base.Bytes Model.MvCommon Model.MvUrl Model.MvCookie Model.MvMultipart Model.MvViews
+From MV Require Import Base.Bytes Model.MvCommon Model.MvUrl Model.MvCookie Model.MvMultipart Model.MvViews Model.MvForm Proofs.MvFormProofs
   Proofs.MvUrlQuote Proofs.MvUrlMain Proofs.MvCookieProofs Proofs.MvMultipartProofs Proofs.MvMultipartMain Proofs.MvC34.
 Import ListNotations.
 
@@ -49,6 +49,23 @@ Theorem C34_form_partial : forall (old : option bytes) (l : pairs),
   plain_mode old = true -> get_urlencoded_form (set_urlencoded_form old l) = l.
 Proof. exact form_roundtrip. Qed.
 Print Assumptions C34_form_partial.
+
+(* the same on a whole message: ANY prior header list (content-type with any charset parameter, other
+   types, duplicates, none); the setter's header write is part of the round trip. get_text is abstract
+   with the contract that under the plain form content-type an ASCII body is its own text. *)
+Theorem C34_form_msg_partial : forall (get_text : bytes -> bytes -> bytes),
+  (forall body, forallb is_ascii body = true -> get_text FORM_CT body = body) ->
+  forall (h : fields) (old_text : option bytes) (l : pairs),
+  plain_mode old_text = true ->
+  let m := set_form_msg h old_text l in
+  get_form_msg (fst m) (get_text (ct_of (fst m)) (snd m)) = l.
+Proof. exact form_msg_roundtrip. Qed.
+Print Assumptions C34_form_msg_partial.
+
+Theorem C34_form_msg_header : forall (h : fields) (old_text : option bytes) (l : pairs),
+  ct_of (fst (set_form_msg h old_text l)) = FORM_CT.
+Proof. exact ct_after_set. Qed.
+Print Assumptions C34_form_msg_header.
 
 (* ---- Request.path_components: every path, every list of non-empty components ---- *)
 Theorem C34_path_components_roundtrip : forall (path : bytes) (comps : list bytes),
